@@ -259,7 +259,7 @@ def _alarm(_sig, _frm):
     raise ProbeTimeout()
 
 
-def probe(cfg: Any, events: Optional[List[str]] = None, rounds: int = 2, want_nf: bool = True, budget_s: int = 20) -> dict:
+def probe(cfg: Any, events: Optional[List[str]] = None, rounds: int = 2, want_nf: bool = True, budget_s: int = 6) -> dict:
     """create -> (normal form) -> start -> sends.  Never raises.  cls: ok / lib / raw / hang."""
     import signal
 
